@@ -287,12 +287,12 @@ theorem history_inside_head (c : Cfg) (steps : List Step) (s : St) (hi : Inv c s
       | close a => exact ⟨(close_inside c s a hi).1, (close_inside c s a hi).2.1⟩
       | exit a => exact ⟨(close_inside c s _ hi).1, (close_inside c s _ hi).2.1⟩
       | «exists» => exact ⟨Touched.refl _ _, hi⟩
-      | doer =>
+      | doer t =>
         simp only [step]
         split
         · exact ⟨(close_inside c s _ hi).1, (close_inside c s _ hi).2.1⟩
-        · obtain ⟨t1, i1⟩ := reopen_inside c s false false false none none hi
-          generalize reopen c s false false false none none = r at t1 i1
+        · obtain ⟨t1, i1⟩ := reopen_inside c s false false false t none hi
+          generalize reopen c s false false false t none = r at t1 i1
           obtain ⟨s1, r1⟩ := r
           cases r1 with
           | error e => exact ⟨t1, i1⟩
@@ -320,6 +320,18 @@ theorem context_exit_clears_path (c : Cfg) (s s' : St) (p : P) (cl : Bool) (hp :
     cases h
     exact clearPath_removes_path _ _ _ _ hcl
   · cases h
+
+/-- a `FilerDoer` run on a Filer that is ALREADY open never reopens it, whatever `temp` is injected at `enter`: the
+path made before stays the Filer's path and the doer's `exit` closes (and, for a temp Filer, clears) exactly that one —
+no second `mkdtemp` directory appears -/
+theorem doer_on_open_filer_keeps_path (c : Cfg) (s : St) (t : Option Bool) (ho : s.opened = true) :
+    (step c s (.doer t)).1.path = s.path ∧ (step c s (.doer t)).1.tmpN = s.tmpN ∧
+    step c s (.doer t) = close c s s.temp := by
+  simp only [step, ho, ↓reduceIte, and_true]
+  unfold close
+  split
+  · split <;> exact ⟨rfl, rfl⟩
+  · exact ⟨rfl, rfl⟩
 
 /-- C29.2 across a reconfiguring `reopen`: a PERSISTENT Filer that is reopened as a temporary one
 (`reopen(temp=True, clear=…)`) clears its old path under the OLD setting — it removes nothing that is not at or
